@@ -18,11 +18,12 @@ searches see it).  Stores into a class's attributes from outside the class are n
 """
 import ast
 import builtins
+import os
 import pathlib
 
 from . import common
 
-SRC = pathlib.Path("/repo/src/yadism")
+SRC = pathlib.Path(os.environ.get("VERIF_MEMO_SRC", "/repo/src/yadism"))  # the override is for trying the census on a scratch worktree
 SKIP_DIRS = ()
 
 
@@ -279,6 +280,78 @@ def census():
     return sites
 
 
+MUTATORS = {"pop", "update", "setdefault", "clear", "popitem", "append", "extend", "insert", "remove", "sort", "reverse", "add", "discard"}
+
+
+def is_mutable_value(node):
+    if isinstance(node, (ast.Dict, ast.List, ast.Set, ast.DictComp, ast.ListComp, ast.SetComp)):
+        return True
+    if isinstance(node, ast.Call):
+        f = dotted(node.func) or ""
+        return f.split(".")[-1] in ("dict", "list", "set", "defaultdict", "OrderedDict", "Counter", "deque")
+    return False
+
+
+def shared_state():
+    """process-wide mutable state: module-level names and class-level attributes that hold a mutable
+    container (or are rebound through `global`) and that some function of the package changes"""
+    out = []
+    for path in sorted(SRC.rglob("*.py")):
+        tree = ast.parse(path.read_text())
+        modname = ".".join(path.relative_to(SRC.parent).with_suffix("").parts)
+        cands = {}  # name as written in stores -> description
+        for n in tree.body:
+            if isinstance(n, ast.Assign) and is_mutable_value(n.value):
+                for t in n.targets:
+                    if isinstance(t, ast.Name):
+                        cands[t.id] = t.id
+            elif isinstance(n, ast.ClassDef):
+                for b in n.body:
+                    if isinstance(b, ast.Assign) and is_mutable_value(b.value):
+                        for t in b.targets:
+                            if isinstance(t, ast.Name):
+                                for prefix in ("self", "cls", n.name, "type(self)", "self.__class__"):
+                                    cands[f"{prefix}.{t.id}"] = f"{n.name}.{t.id}"
+        changed = set()
+        # rebinding a class attribute from inside a function: `cls.X = v`, `ClassName.X = v`, `type(self).X = v`
+        class_names = {c.name for c in tree.body if isinstance(c, ast.ClassDef)}
+        for c in [c for c in tree.body if isinstance(c, ast.ClassDef)]:
+            for m in ast.walk(c):
+                if isinstance(m, (ast.Assign, ast.AugAssign)):
+                    for t in (m.targets if isinstance(m, ast.Assign) else [m.target]):
+                        if isinstance(t, ast.Attribute):
+                            base = ast.unparse(t.value)
+                            if base in ("cls", "type(self)", "self.__class__") or base in class_names:
+                                changed.add(f"{c.name if base not in class_names else base}.{t.attr}")
+        for n in ast.walk(tree):
+            if isinstance(n, ast.Global):
+                for g in n.names:
+                    changed.add(g)
+            if isinstance(n, ast.FunctionDef):
+                inst_attrs = set()  # self.X rebound in this function: an instance attribute shadows the class one
+                for m in ast.walk(n):
+                    if isinstance(m, ast.Assign):
+                        for t in m.targets:
+                            d = dotted(t) if isinstance(t, ast.Attribute) else None
+                            if d:
+                                inst_attrs.add(d)
+                for m in ast.walk(n):
+                    tgt = None
+                    if isinstance(m, (ast.Assign, ast.AugAssign, ast.Delete)):
+                        for t in (m.targets if not isinstance(m, ast.AugAssign) else [m.target]):
+                            if isinstance(t, ast.Subscript):
+                                tgt = ast.unparse(t.value)
+                                if tgt in cands:
+                                    changed.add(cands[tgt])
+                    if isinstance(m, ast.Call) and isinstance(m.func, ast.Attribute) and m.func.attr in MUTATORS:
+                        tgt = ast.unparse(m.func.value)
+                        if tgt in cands:
+                            changed.add(cands[tgt])
+        for c in sorted(changed):
+            out.append((modname, c))
+    return out
+
+
 def lstr(s):
     return '"' + s.replace("\\", "\\\\").replace('"', '\\"') + '"'
 
@@ -287,19 +360,22 @@ def llist(xs):
     return "[" + ", ".join(lstr(x) for x in xs) + "]"
 
 
-def render(sites):
+def render(sites, shared):
     L = ["/- GENERATED by harness/translate_memo.py from /repo's working tree: do not edit. -/", "", "namespace Yadism.Generated.Memo", "",
          "structure Site where", "  fn : String", "  table : String", "  key : String", "  keyVars : List String", "  deps : List String", "  immutable : List String", "  deriving DecidableEq, Repr", "",
          "def sites : List Site := ["]
     L.append(",\n".join(f"  ⟨{lstr(s['where'])}, {lstr(s['table'])}, {lstr(s['key'])}, {llist(s['keyVars'])}, {llist(s['deps'])}, {llist(s['immutable'])}⟩" for s in sites))
+    L += ["]", "", "/-- process-wide mutable state that some function changes: (module, name) -/", "def sharedState : List (String × String) := ["]
+    L.append(",\n".join(f"  ({lstr(m)}, {lstr(n)})" for m, n in shared))
     L += ["]", "", "end Yadism.Generated.Memo"]
     return "\n".join(L) + "\n"
 
 
 def regenerate():
     sites = census()
+    shared = shared_state()
     out = common.LEAN / "YadismModel" / "Generated" / "Memo.lean"
-    txt = render(sites)
+    txt = render(sites, shared)
     if not out.exists() or out.read_text() != txt:
         out.write_text(txt)
     return sites
@@ -308,3 +384,4 @@ def regenerate():
 if __name__ == "__main__":
     for s in regenerate():
         print(s)
+    print("shared state:", shared_state())
